@@ -106,6 +106,7 @@ func actionFor(frags []int, route int, imports []string) pipe.Action {
 
 type Case struct {
 	AfterFailure int    `json:"after_a_failed_execute_of_kind,omitempty"` // 1 + index into failureKinds
+	TwoModules   bool   `json:"one_run_over_two_modules,omitempty"`
 	Mod          int    `json:"module"`
 	Item         Item   `json:"case"`
 	Name         string `json:"-"`
@@ -117,6 +118,15 @@ func fragText(idx []int) string {
 		b.WriteString(strings.ReplaceAll(fragments[f].text, "$I", strconv.Itoa(pos)))
 	}
 	return b.String()
+}
+
+func fragIndex(name string) int {
+	for i, f := range fragments {
+		if f.name == name {
+			return i
+		}
+	}
+	panic(name)
 }
 
 func fragNames(idx []int) []string {
@@ -242,6 +252,50 @@ func checkAfterFailure(c *core.Ctx, kind int) {
 		}
 	}
 	c.Nontrivial(fmt.Sprint("after-failure ", kind))
+}
+
+// checkTwoModules: ONE run over packages of two modules (a main module and a module it replaces locally) that
+// differ in go directive and module path: every file is formatted for the module ITS package belongs to.
+func checkTwoModules(c *core.Ctx) {
+	c.Eval(1)
+	dir := pipe.TempDir("c01m")
+	defer os.RemoveAll(dir)
+	main, legacy := modSpec{"alpha.io/a", "1.24"}, modSpec{"beta", "1.12"}
+	_ = pipe.WriteTree(dir, pipe.Tree{
+		"go.mod":            pipe.GoMod(main.path, main.goVersion) + "\nrequire beta v0.0.0\n\nreplace beta => ./legacy\n",
+		"pa/pa.go":          "package pa\n\nimport _ \"beta/pb\"\n\ntype T struct{}\n",
+		"sub/sub.go":        "package sub\n\ntype X int\n",
+		"legacy/go.mod":     pipe.GoMod(legacy.path, legacy.goVersion),
+		"legacy/pb/pb.go":   "package pb\n\ntype T struct{}\n",
+		"legacy/sub/sub.go": "package sub\n\ntype X int\n",
+	})
+	frags := []int{0, fragIndex("octal-literal")} // func, octal literal (rewritten to 0o755 from go 1.13 on only)
+	imps := []string{"fmt", "beta/sub", "alpha.io/a/sub"}
+	act := pipe.Action{Render: fragText(frags), Imports: imps}
+	cs := Case{Mod: 0, Item: Item{Frags: frags}, TwoModules: true}
+	for _, entry := range [][]string{{"./pa", "beta/pb"}, {"beta/pb", "./pa"}} {
+		o := pipe.Exec(pipe.Spec{Dir: dir, Entrypoints: entry, Globals: map[string][]string{"gengo:g1": {"true"}},
+			Gens: []pipe.GenScript{{Name: "g1", ByType: map[string]pipe.Action{"alpha.io/a/pa.T": act, "beta/pb.T": act}}}})
+		c.Trans(1)
+		if !o.OK() {
+			c.Fail("", cs, "one run over two modules (entrypoints %v) failed: load=%q err=%q panic=%q", entry, o.LoadErr, o.Err, o.Panic)
+			return
+		}
+		for _, f := range []struct {
+			file string
+			m    modSpec
+			pkg  string
+		}{{"pa/zz_generated.g1.go", main, "pa"}, {"legacy/pb/zz_generated.g1.go", legacy, "pb"}} {
+			src, err := os.ReadFile(dir + "/" + f.file)
+			if err != nil {
+				c.Fail("", cs, "entrypoints %v: %v", entry, err)
+				continue
+			}
+			judgeFile(c, cs, f.m, "g1", f.pkg, src, frags, imps, fmt.Sprintf("one run over the modules alpha.io/a (go 1.24) and beta (go 1.12), entrypoints %v, file %s", entry, f.file))
+			_ = os.Remove(dir + "/" + f.file)
+		}
+	}
+	c.Nontrivial("two-modules")
 }
 
 func stripHeader(src []byte) []byte {
@@ -522,6 +576,9 @@ func run(c *core.Ctx) {
 			checkAfterFailure(c, k)
 		}
 	}
+	if c.Next() {
+		checkTwoModules(c)
+	}
 	c.Bound("modules", modules2())
 	maxSeq := c.Pick(2, 3)
 	c.Bound("max_fragments_per_file", maxSeq)
@@ -643,6 +700,10 @@ func replay(c *core.Ctx, raw json.RawMessage) {
 	}
 	if cs.AfterFailure > 0 {
 		checkAfterFailure(c, cs.AfterFailure-1)
+		return
+	}
+	if cs.TwoModules {
+		checkTwoModules(c)
 		return
 	}
 	checkBatch(c, cs.Mod, []Item{cs.Item})
